@@ -315,4 +315,8 @@ def garbage(rng, kind):
         return rbytes(rng, rng.choice([1, 5, 12, 13, 20]))
     if kind == "waveshare":
         return rbytes(rng, rng.choice([1, 7, 19, 33]))
+    if rng.random() < 0.15:
+        # a "line" longer than the 64 KiB the stream reader accepts: the client may drop the connection or skip it,
+        # it must not stall
+        return (b"x" * 1000) * rng.choice([66, 70, 130])
     return rng.choice([b"garbage", b"\xff\xfe\x00\x01", b"A1 2 3\r\nxyz", b"00:00 R\r\n\r\npartial"])
